@@ -318,3 +318,49 @@ PROPS["C14"] = dict(
     assumptions=COMMON_ASSUME + ["the etcd raft node is a harness node that commits every proposal at once, re-delivers the stored entries after the snapshot on (re)start and appends the bootstrap membership entry on StartNode",
                                  "net.Listen, grpc.NewServer and service registration are stubs; Badger is the API-level model with contents shared per Dir"],
 )
+
+GLUE_ASSUME = COMMON_ASSUME + [
+    "consensus itself (etcd/raft) and the storage engine (Badger) are trusted: what is decided is the host-loop obligations etcd/raft documents (persist before apply/send, apply in order, ApplyConfChange for every membership entry, Advance last, restart instead of bootstrap on an existing log)",
+    "etcdRaft.Node is a harness node feeding Ready values; the WAL is a recording wal.WAL over etcd's MemoryStorage; peers are recording pb.RaftTransportClient implementations; RaftGroup is built by the overlay-only constructor VerifNewRaftGroup",
+    "tickers fire only when every goroutine is blocked",
+]
+
+PROPS["C03"] = dict(
+    level="model_checking",
+    technique="bounded symbolic execution of go/ssa (gosmt): the real RaftGroup.run select loop is fed every Ready shape in the bound by a harness raft node; the recorded event trace is checked for every crash instant (= every trace prefix); Ready shapes are path decisions (no solver variables: verdict by exhaustive path enumeration)",
+    explanation="reduced claim (DESIGN.md section 5 C03): nothing is applied (hence acknowledged) before the Ready's hard state, entries and received snapshot were handed to the WAL; a received snapshot is applied before the committed entries; every committed entry is applied once, in order; a local snapshot is labelled with the index of the last applied entry and its data is produced right before; a stored snapshot is restored by Start before any Ready is consumed. What the WAL then answers after a crash/reopen is C06; what etcd/raft re-delivers after restart and Badger's durability are trusted",
+    runs={
+        "quick": [
+            dict(pkg="./storage/raft", entry="VerifC03", bounds="readys=1,maxmessages=0", reach=["readys-handled", "local-snapshot-taken", "end"]),
+            dict(pkg="./storage/raft", entry="VerifC03", bounds="readys=2,maxmessages=1,msgtypes=1,destinations=1,maxcommitted=1,maxentries=0,snapshots=0,zerogroup=1,storedsnap=0,peerfails=0", reach=["readys-handled", "local-snapshot-taken", "end"]),
+        ],
+        "thorough": [
+            dict(pkg="./storage/raft", entry="VerifC03", bounds="readys=1,maxmessages=1,msgtypes=2", reach=["readys-handled", "end"]),
+            dict(pkg="./storage/raft", entry="VerifC03", bounds="readys=2,maxmessages=0,maxcommitted=2,maxentries=1,zerogroup=1,peerfails=0", max_seconds=3000, reach=["readys-handled", "end"]),
+            dict(pkg="./storage/raft", entry="VerifC03", bounds="readys=1,maxmessages=0,det=0,preempt=1,zerogroup=1,storedsnap=0,peerfails=0", max_seconds=3000, reach=["readys-handled", "end"]),
+        ],
+    },
+    outside="the end-to-end statement (acknowledged writes present after a crash at any instant and restart, minority crashes): it needs etcd/raft's replay and Badger's durability, which are not encoded; more than 2 Readys; crash instants inside a WAL call",
+    assumptions=GLUE_ASSUME,
+    no_native_replay=True,
+)
+
+PROPS["C05"] = dict(
+    level="model_checking",
+    technique="bounded symbolic execution of go/ssa (gosmt): the real ready loop under every Ready shape in the bound (messages of five types to reachable / unreachable / failing peers, leader and follower states), and the real Server.setup / partition loading executed twice on one data directory to observe StartNode vs RestartNode; all choices are path decisions (no solver variables)",
+    explanation="reduced claim (DESIGN.md section 5 C05): a non-leader sends no message of a Ready before that Ready was saved (votes / append acknowledgements never leave before the state they attest is durable); every membership entry reaches ApplyConfChange once, in order, and only the zero group feeds the address book; undeliverable messages and snapshot outcomes are reported back to raft; Advance comes last; a group whose store holds durable state is restarted, not bootstrapped again. Agreement of applied entries across replicas under loss/duplication/partitions rests on etcd/raft given these obligations and is not decided",
+    runs={
+        "quick": [
+            dict(pkg="./storage/raft", entry="VerifC03", bounds="readys=1,maxcommitted=1,maxentries=1,snapshots=0,storedsnap=0,zerogroup=1", reach=["readys-handled", "end"]),
+            dict(pkg=".", entry="VerifC05Boot", bounds="", no_native=True, reach=["restarted", "boot-end"]),
+        ],
+        "thorough": [
+            dict(pkg="./storage/raft", entry="VerifC03", bounds="readys=1,maxcommitted=1,maxentries=1,msgtypes=5", reach=["readys-handled", "end"]),
+            dict(pkg="./storage/raft", entry="VerifC03", bounds="readys=2,maxmessages=1,msgtypes=3,destinations=2,maxcommitted=1,maxentries=0,snapshots=0,zerogroup=0,storedsnap=0", max_seconds=3000, reach=["readys-handled", "end"]),
+            dict(pkg=".", entry="VerifC05Boot", bounds="", no_native=True, reach=["restarted", "boot-end"]),
+        ],
+    },
+    outside="multi-replica behaviour under message loss, delay, duplication, reordering, partitions and crash-restart (consensus safety and convergence are etcd/raft's); the leader path is allowed to send before saving (raft's contract)",
+    assumptions=GLUE_ASSUME,
+    no_native_replay=True,
+)
